@@ -223,6 +223,148 @@ theorem tile_algebra (T : Tile) (hT : T.Fits) (f0 L0 g : Nat → Nat) :
     have e2 : (4 * lix + r) % 4 = r := by omega
     rw [e1, e2]
 
+/-! ## the whole grid at the description level
+
+The benchmark launches `(width/4, width/4, 1) / (16, 16, 1)` on a square matrix: `nb = width/64` blocks per side,
+`wiWidth = wiHeight = 16 nb`; work-group `(a, b)` (the `n`-th of the grid builder, `a = n % nb`, `b = n / nb`) moves
+input block (row `a`, column `(a + b) % nb`) to output block (row `(a + b) % nb`, column `a`). -/
+
+/-- what a phase-2 write of a work-group is: a byte of an output float, with the byte of the mirrored input float -/
+theorem wrAll_values (T : Tile) (f0 L0 : Nat → Nat) (p : Nat × Nat)
+    (hp : p ∈ wrAll T (applyWrites (lwAll T f0) L0)) :
+    ∃ R C b, R < 64 ∧ C < 64 ∧ b < 4 ∧ p = (T.outAddr R C + b, f0 (T.inAddr C R + b)) := by
+  obtain ⟨lix, liy, c, r, b, h1, h2, hc, hr, hb, e⟩ := (mem_wrAll T _ p).mp hp
+  refine ⟨4 * liy + c, 4 * lix + r, b, by omega, by omega, hb, ?_⟩
+  rw [e]
+  have hl := lds_content T f0 L0 (4 * lix + r) liy (4 * c + b) (by omega) h2 (by omega)
+  have ek : 16 * (lix * 64 + liy + 16 * r) + 4 * c + b = 16 * (16 * (4 * lix + r) + liy) + (4 * c + b) := by omega
+  rw [ek, hl]
+  unfold Tile.outAddr Tile.inAddr
+  have e1 : (4 * lix + r) / 4 = lix := by omega
+  have e2 : (4 * lix + r) % 4 = r := by omega
+  have e3 : (4 * liy + c) / 4 = liy := by omega
+  have e4 : (4 * liy + c) % 4 = c := by omega
+  rw [e1, e2, e3, e4, Nat.add_assoc (T.inF4 (4 * lix + r) liy)]
+
+/-- every byte of the output tile is written -/
+theorem wrAll_covers (T : Tile) (L : Nat → Nat) (R C b : Nat) (hR : R < 64) (hC : C < 64) (hb : b < 4) :
+    ∃ p ∈ wrAll T L, p.1 = T.outAddr R C + b := by
+  refine ⟨_, (mem_wrAll T _ _).mpr ⟨C / 4, R / 4, R % 4, C % 4, b, by omega, by omega, by omega, by omega, hb, rfl⟩, ?_⟩
+  show T.outF4 (4 * (R / 4) + R % 4) (C / 4) + 4 * (C % 4) + b = T.outAddr R C + b
+  have : 4 * (R / 4) + R % 4 = R := by omega
+  rw [this]
+  rfl
+
+/-- the tile of the `n`-th work-group of a launch on a square matrix with `nb` blocks per side -/
+def gridTile (inp out nb n : Nat) : Tile :=
+  ⟨inp, out, 16 * nb, 16 * nb, (n % nb + n / nb) % nb, n % nb⟩
+
+theorem gridTile_fits (inp out nb n : Nat) (hnb : 0 < nb) : (gridTile inp out nb n).Fits := by
+  have h1 : (n % nb + n / nb) % nb < nb := Nat.mod_lt _ hnb
+  have h2 : n % nb < nb := Nat.mod_lt _ hnb
+  constructor
+  · show (n % nb + n / nb) % nb * 16 + 16 ≤ 16 * nb
+    omega
+  · show n % nb * 16 + 16 ≤ 16 * nb
+    omega
+
+/-- tile-local → matrix coordinates (row-major floats, row length `64 nb`) -/
+theorem outAddr_global (inp out nb n R C : Nat) :
+    (gridTile inp out nb n).outAddr R C =
+      out + 4 * (64 * nb * (((n % nb + n / nb) % nb) * 64 + R) + ((n % nb) * 64 + C)) := by
+  show out + 16 * (n % nb * 16 + C / 4 + 16 * nb * ((n % nb + n / nb) % nb * 64 + R)) + 4 * (C % 4) = _
+  generalize (n % nb + n / nb) % nb * 64 + R = X
+  have e1 : 16 * nb * X = 16 * (nb * X) := Nat.mul_assoc _ _ _
+  have e2 : 64 * nb * X = 64 * (nb * X) := Nat.mul_assoc _ _ _
+  rw [e1, e2]
+  omega
+
+theorem inAddr_global (inp out nb n ρ κ : Nat) :
+    (gridTile inp out nb n).inAddr ρ κ =
+      inp + 4 * (64 * nb * ((n % nb) * 64 + ρ) + (((n % nb + n / nb) % nb) * 64 + κ)) := by
+  show inp + 16 * ((n % nb + n / nb) % nb * 16 + κ / 4 + 16 * nb * (n % nb * 64 + ρ)) + 4 * (κ % 4) = _
+  generalize n % nb * 64 + ρ = X
+  have e1 : 16 * nb * X = 16 * (nb * X) := Nat.mul_assoc _ _ _
+  have e2 : 64 * nb * X = 64 * (nb * X) := Nat.mul_assoc _ _ _
+  rw [e1, e2]
+  omega
+
+/-- the phase-2 writes of all work-groups, in the order of the grid builder -/
+def gridWrites (inp out nb : Nat) (f0 L0 : Nat → Nat) : List (Nat × Nat) :=
+  (List.range (nb * nb)).flatMap fun n =>
+    wrAll (gridTile inp out nb n) (applyWrites (lwAll (gridTile inp out nb n) f0) L0)
+
+/-- which work-group handles output block (row `gx`, column `a`) -/
+theorem block_owner (nb a gx : Nat) (ha : a < nb) (hg : gx < nb) :
+    ∃ n, n < nb * nb ∧ n % nb = a ∧ (n % nb + n / nb) % nb = gx := by
+  have hnb : 0 < nb := by omega
+  refine ⟨((gx + nb - a) % nb) * nb + a, ?_, ?_, ?_⟩
+  · have h1 : (gx + nb - a) % nb < nb := Nat.mod_lt _ hnb
+    have h2 : ((gx + nb - a) % nb + 1) * nb ≤ nb * nb := Nat.mul_le_mul_right _ h1
+    rw [Nat.add_mul, Nat.one_mul] at h2
+    omega
+  · rw [Nat.mul_comm, Nat.mul_add_mod, Nat.mod_eq_of_lt ha]
+  · have e1 : ((gx + nb - a) % nb * nb + a) % nb = a := by
+      rw [Nat.mul_comm, Nat.mul_add_mod, Nat.mod_eq_of_lt ha]
+    have e2 : ((gx + nb - a) % nb * nb + a) / nb = (gx + nb - a) % nb := by
+      rw [Nat.mul_comm, Nat.mul_add_div hnb, Nat.div_eq_of_lt ha, Nat.add_zero]
+    rw [e1, e2]
+    by_cases h : a ≤ gx
+    · have e3 : (gx + nb - a) % nb = gx - a := by
+        rw [show gx + nb - a = (gx - a) + nb by omega, Nat.add_mod_right, Nat.mod_eq_of_lt (by omega)]
+      rw [e3, show a + (gx - a) = gx by omega, Nat.mod_eq_of_lt hg]
+    · have e3 : (gx + nb - a) % nb = gx + nb - a := Nat.mod_eq_of_lt (by omega)
+      rw [e3, show a + (gx + nb - a) = gx + nb by omega, Nat.add_mod_right, Nat.mod_eq_of_lt hg]
+
+/-- **the whole matrix transposed** (description level): the phase-2 writes of all `nb²` work-groups put float
+    (Cg, Rg) of the input matrix at float (Rg, Cg) of the output matrix, and change nothing outside the output
+    matrix -/
+theorem grid_algebra (inp out nb : Nat) (hnb : 0 < nb) (f0 L0 g : Nat → Nat) :
+    let g' := applyWrites (gridWrites inp out nb f0 L0) g
+    (∀ Rg Cg b, Rg < 64 * nb → Cg < 64 * nb → b < 4 →
+      g' (out + 4 * (64 * nb * Rg + Cg) + b) = f0 (inp + 4 * (64 * nb * Cg + Rg) + b)) ∧
+    (∀ a, (a < out ∨ out + 4 * (64 * nb * (64 * nb)) ≤ a) → g' a = g a) := by
+  intro g'
+  -- a write of work-group n, in matrix coordinates
+  have hval : ∀ p ∈ gridWrites inp out nb f0 L0, ∃ X Y b, X < 64 * nb ∧ Y < 64 * nb ∧ b < 4 ∧
+      p = (out + 4 * (64 * nb * X + Y) + b, f0 (inp + 4 * (64 * nb * Y + X) + b)) := by
+    intro p hp
+    obtain ⟨n, _, hpn⟩ := List.mem_flatMap.mp hp
+    obtain ⟨R, C, b, hR, hC, hb, e⟩ := wrAll_values _ f0 L0 p hpn
+    have h1 : (n % nb + n / nb) % nb < nb := Nat.mod_lt _ hnb
+    have h2 : n % nb < nb := Nat.mod_lt _ hnb
+    refine ⟨(n % nb + n / nb) % nb * 64 + R, n % nb * 64 + C, b, by omega, by omega, hb, ?_⟩
+    rw [e, outAddr_global, inAddr_global]
+  constructor
+  · intro Rg Cg b hR hC hb
+    show applyWrites _ g _ = _
+    apply aw_hit
+    · intro p hp hk
+      obtain ⟨X, Y, b', hX, hY, hb', e⟩ := hval p hp
+      rw [e] at hk ⊢
+      simp only at hk ⊢
+      have hk' : Y + 64 * nb * X = Cg + 64 * nb * Rg ∧ b' = b := by omega
+      obtain ⟨e1, e2⟩ := div_unique (64 * nb) Y Cg X Rg hY hC hk'.1
+      rw [e1, e2, hk'.2]
+    · obtain ⟨n, hn, hn1, hn2⟩ := block_owner nb (Cg / 64) (Rg / 64) (by omega) (by omega)
+      obtain ⟨p, hp, hp1⟩ := wrAll_covers (gridTile inp out nb n)
+        (applyWrites (lwAll (gridTile inp out nb n) f0) L0) (Rg % 64) (Cg % 64) b (by omega) (by omega) hb
+      refine ⟨p, List.mem_flatMap.mpr ⟨n, List.mem_range.mpr hn, hp⟩, ?_⟩
+      rw [hp1, outAddr_global, hn2, hn1]
+      have e1 : Rg / 64 * 64 + Rg % 64 = Rg := by omega
+      have e2 : Cg / 64 * 64 + Cg % 64 = Cg := by omega
+      rw [e1, e2]
+  · intro a ha
+    show applyWrites _ g a = g a
+    apply aw_not_key
+    intro p hp hk
+    obtain ⟨X, Y, b, hX, hY, hb, e⟩ := hval p hp
+    rw [e] at hk
+    simp only at hk
+    have h3 : 64 * nb * (X + 1) ≤ 64 * nb * (64 * nb) := Nat.mul_le_mul_left _ hX
+    rw [Nat.mul_add, Nat.mul_one] at h3
+    omega
+
 /-- the work-group level statement: a 16x16 work-group whose four wavefronts have the phase descriptions of the
     kernel (`lwAll`, `wrAll`) leaves, after the two rounds of `runWG`, the transposed tile in the output matrix
     and every other byte of memory as it was -/
